@@ -66,51 +66,23 @@ func runC03(c *Ctx) {
 
 	// ---------- R1 ----------
 	{
-		pairs := map[string]string{}
-		var replacerGlobal string
-		if sp := c.P.SPkg[pkgPath("rules")]; sp != nil {
-			if initFn := sp.Func("init"); initFn != nil {
-				eachInstr(initFn, func(_ *ssa.BasicBlock, in ssa.Instruction) {
-					cl, ok := in.(*ssa.Call)
-					if !ok || cl.Call.StaticCallee() == nil || calleeName(cl.Call.StaticCallee()) != "strings.NewReplacer" {
-						return
-					}
-					// varargs: stores into the backing array
-					var vals []string
-					if sl, ok := cl.Call.Args[0].(*ssa.Slice); ok {
-						if al, ok := sl.X.(*ssa.Alloc); ok {
-							m := map[int64]string{}
-							for _, r := range *al.Referrers() {
-								if ia, ok := r.(*ssa.IndexAddr); ok {
-									idx := ia.Index.(*ssa.Const).Int64()
-									for _, r2 := range *ia.Referrers() {
-										if st, ok := r2.(*ssa.Store); ok {
-											if k, ok := st.Val.(*ssa.Const); ok {
-												m[idx] = constantString(k)
-											}
-										}
-									}
-								}
-							}
-							for i := int64(0); i < int64(len(m)); i++ {
-								vals = append(vals, m[i])
-							}
-						}
-					}
-					for i := 0; i+1 < len(vals); i += 2 {
-						pairs[vals[i]] = vals[i+1]
-					}
-					if rs := cl.Referrers(); rs != nil {
-						for _, r := range *rs {
-							if st, ok := r.(*ssa.Store); ok {
-								if gl, ok := st.Addr.(*ssa.Global); ok {
-									replacerGlobal = gl.Name()
-								}
-							}
-						}
-					}
-				})
+		tables := replacerTables(c)
+		// the escape table is the replacer applied to the pattern itself
+		replacerGlobal := ""
+		{
+			g0 := NewGate(c.P)
+			g0.Inline = inlineOnly()
+			s0 := g0.Eval(ptr)
+			pat0 := g0.ParamExprs(ptr)[0]
+			for _, x := range g0.U.Collect(g0.RetExpr(s0, 0), func(x *E) bool {
+				return x.Op == "call" && x.Aux == "(*strings.Replacer).Replace" && len(x.Args) == 2 && x.Args[1] == pat0 && x.Args[0].Op == "gload"
+			}) {
+				replacerGlobal = x.Args[0].Aux[strings.LastIndex(x.Args[0].Aux, ".")+1:]
 			}
+		}
+		pairs := tables[replacerGlobal]
+		if pairs == nil {
+			pairs = map[string]string{}
 		}
 		bad := ""
 		if len(pairs) == 0 {
@@ -152,10 +124,48 @@ func runC03(c *Ctx) {
 		reps := u.Collect(res, isCall("(*strings.Replacer).Replace"))
 		ras := u.Collect(res, isCall("strings.ReplaceAll"))
 		var rep *E
-		if len(reps) == 1 && reps[0].Args[1] == pat {
-			rep = reps[0]
+		nEsc := 0
+		for _, r := range reps {
+			if r.Args[1] == pat {
+				rep = r
+				nEsc++
+			}
+		}
+		if nEsc != 1 {
+			rep = nil
+		}
+		// the text an expansion stage acts on: ReplaceAll(text, from, to) or replacer.Replace(text)
+		textOf := func(e *E) *E {
+			if e.Aux == "(*strings.Replacer).Replace" {
+				return e.Args[1]
+			}
+			return e.Args[0]
 		}
 		var pipes, stars, seps []*E
+		// a single-pass replacer for the masks (a package-level strings.NewReplacer of constants)
+		tables := replacerTables(c)
+		for _, r := range reps {
+			if r == rep || r.Args[0].Op != "gload" {
+				continue
+			}
+			tb := tables[r.Args[0].Aux[strings.LastIndex(r.Args[0].Aux, ".")+1:]]
+			if tb == nil {
+				c.Fail("C03.R4", "mask characters expanded everywhere", ptr.Pos(), "UNDECIDED: a replacer whose table is not a constant of the package initialiser is applied: "+clip(u.Show(r), 80))
+				continue
+			}
+			for from, to := range tb {
+				switch from {
+				case K["MaskAnyCharacter"]:
+					stars = append(stars, r)
+					c.Check(to == K["RegexAnyCharacter"], "C03.R4", "'*' expands to RegexAnyCharacter everywhere", ptr.Pos(), "replacer pair (MaskAnyCharacter, RegexAnyCharacter)", fmt.Sprintf("'*' is replaced by %q", to))
+				case K["MaskSeparator"]:
+					seps = append(seps, r)
+					c.Check(to == K["RegexSeparator"], "C03.R4", "'^' expands to RegexSeparator everywhere", ptr.Pos(), "replacer pair (MaskSeparator, RegexSeparator)", fmt.Sprintf("'^' is replaced by %q", to))
+				default:
+					c.Fail("C03.R4", "mask characters expanded everywhere", ptr.Pos(), fmt.Sprintf("the mask replacer also rewrites %q to %q, which the syntax does not document", from, to))
+				}
+			}
+		}
 		for _, r := range ras {
 			from, _ := r.Args[1].StrVal()
 			to, _ := r.Args[2].StrVal()
@@ -195,11 +205,11 @@ func runC03(c *Ctx) {
 			for _, e := range []*E{stars[0], seps[0]} {
 				okP := false
 				for _, p := range pipes {
-					if in(e.Args[0], p) {
+					if in(textOf(e), p) {
 						okP = true
 					}
 				}
-				if !okP || !in(e.Args[0], rep) {
+				if !okP || !in(textOf(e), rep) {
 					bad = "the expansion of * / ^ does not act on the escaped text: the metacharacters of the expansion itself ('.', '(', '|', '$') would be escaped, or pattern metacharacters would not"
 				}
 			}
@@ -262,21 +272,7 @@ func runC03(c *Ctx) {
 					if !okP || !okD {
 						badp = "the middle does not end exactly one character before the end (the trailing pipe must stay an anchor, everything before it must be escaped)"
 					}
-					// P must be the length of the leading mask under which this branch is taken
-					cond := u.Leaves(res)
-					_ = cond
-					isStartURL := false
-					for leaf, cnd := range u.Leaves(stars[0].Args[0]) {
-						_ = leaf
-						_ = cnd
-					}
-					for _, at := range u.atoms {
-						if at.Op == "call" && at.Aux == "strings.HasPrefix" && at.Args[0] == X && isStr(at.Args[1], K["MaskStartURL"]) {
-							isStartURL = true
-						}
-					}
 					wantP := int64(len(K["MaskPipe"]))
-					_ = isStartURL
 					if okP && P != wantP && P != int64(len(K["MaskStartURL"])) {
 						badp = fmt.Sprintf("the untouched head has length %d, which is neither len(\"|\") nor len(\"||\")", P)
 					}
@@ -287,9 +283,9 @@ func runC03(c *Ctx) {
 		// R3 (coverage): the escaping may be skipped only where the inner region regex[P:len-1] cannot hold a pipe
 		if rep != nil && len(stars) == 1 && len(seps) == 1 {
 			in := func(outer, inner *E) bool { return u.Mentions(outer, func(x *E) bool { return x == inner }) }
-			esc := stars[0].Args[0]
-			if in(esc, seps[0]) {
-				esc = seps[0].Args[0]
+			esc := textOf(stars[0])
+			if in(esc, seps[0]) && seps[0] != stars[0] {
+				esc = textOf(seps[0])
 			}
 			badc := ""
 			nb := 0
@@ -699,4 +695,71 @@ func runC03(c *Ctx) {
 		}
 		c.Check(bad == "", "C03.R9", "constant RegexStartURL", nnr.Pos(), "the four schemes with optional subdomains, nothing else; label boundary before the rest", bad)
 	}
+}
+
+// replacerTables reads the strings.NewReplacer calls of the package initialiser: per package-level
+// variable the constant (from, to) pairs.
+func replacerTables(c *Ctx) map[string]map[string]string {
+	out := map[string]map[string]string{}
+	sp := c.P.SPkg[pkgPath("rules")]
+	if sp == nil {
+		return out
+	}
+	initFn := sp.Func("init")
+	if initFn == nil {
+		return out
+	}
+	eachInstr(initFn, func(_ *ssa.BasicBlock, in ssa.Instruction) {
+		cl, ok := in.(*ssa.Call)
+		if !ok || cl.Call.StaticCallee() == nil || calleeName(cl.Call.StaticCallee()) != "strings.NewReplacer" {
+			return
+		}
+		// varargs: stores into the backing array
+		var vals []string
+		complete := true
+		if sl, ok := cl.Call.Args[0].(*ssa.Slice); ok {
+			if al, ok := sl.X.(*ssa.Alloc); ok {
+				m := map[int64]string{}
+				for _, r := range *al.Referrers() {
+					if ia, ok := r.(*ssa.IndexAddr); ok {
+						ic, isC := ia.Index.(*ssa.Const)
+						if !isC {
+							complete = false
+							continue
+						}
+						idx := ic.Int64()
+						for _, r2 := range *ia.Referrers() {
+							if st, ok := r2.(*ssa.Store); ok {
+								if k, ok := st.Val.(*ssa.Const); ok {
+									m[idx] = constantString(k)
+								} else {
+									complete = false
+								}
+							}
+						}
+					}
+				}
+				for i := int64(0); i < int64(len(m)); i++ {
+					vals = append(vals, m[i])
+				}
+			}
+		}
+		if !complete {
+			return
+		}
+		pairs := map[string]string{}
+		for i := 0; i+1 < len(vals); i += 2 {
+			pairs[vals[i]] = vals[i+1]
+		}
+		if rs := cl.Referrers(); rs != nil {
+			for _, r := range *rs {
+				if st, ok := r.(*ssa.Store); ok {
+					if gl, ok := st.Addr.(*ssa.Global); ok {
+						out[gl.Name()] = pairs
+					}
+				}
+			}
+		}
+	})
+	return out
 }
